@@ -104,7 +104,8 @@ def generate(rng, prop, tier):
         p["entropy"] = rng.choice([None, None, 8, 48, 64, 100])
         p["length"] = rng.choice([None, None, 1, 4, 12, 30])
         p["charset"] = rng.choice([None, "ascii_72", "ascii_62", "ascii_50", "hex"])
-        p["chars"] = rng.choice([None, None, "abc", "01"]) if p["charset"] is None else None
+        p["chars"] = rng.choice([None, None, "abc", "01", "αβγδ", "éßü漢字"]) if p["charset"] is None else None
+        p["chars_bytes"] = bool(p["chars"]) and rng.random() < 0.4  # the alphabet handed over as UTF-8 bytes
     elif api == "genphrase":
         p["entropy"] = rng.choice([None, None, 20, 48, 64])
         p["length"] = rng.choice([None, None, 1, 3, 8])
@@ -246,6 +247,8 @@ class _Gen:
             from passlib import pwd
 
             kw = {k: v for k, v in (("entropy", p["entropy"]), ("length", p["length"]), ("charset", p["charset"]), ("chars", p["chars"])) if v is not None}
+            if p.get("chars_bytes") and "chars" in kw:
+                kw["chars"] = kw["chars"].encode("utf-8")
             gen = pwd.WordGenerator(**kw)
             self.alphabet = list(gen.chars)
             self.n = gen.length
